@@ -1,3 +1,4 @@
+import DSV.Generated.Tables
 /-!
 # Append model (C11): schema-argument acceptance, record validation, value coercion
 
@@ -203,6 +204,36 @@ def scanWorks (t : Table) : Bool := t.files.all (fun f => f.layout == layout t.s
 /-- pruning on column `c` looks the bound up under the id the TABLE's schema gives `c`: sound only if each file stored it under the same key -/
 def pruneSound (t : Table) : Bool := t.files.all (fun f => f.boundKeys == boundKeys t.schema)
 def scanRows (t : Table) : List Record := t.files.flatMap (·.rows)
+
+
+/-! ## pre-built files (`Transaction.append_files` / `_validate_file_schema`) -/
+
+/-- the Arrow type a column type is written as: `_iceberg_type_to_arrow` (table regenerated from the source on every run;
+unknown types default to string) -/
+def arrowTypeOf (ty : String) : String := (DSV.Generated.typeMapping.lookup ty).getD "pa.string()"
+
+/-- the Arrow schema of a table schema: what `create_arrow_schema` builds and what `concat_tables` compares
+(name, Arrow type, nullable) in order -/
+def arrowSchema (s : Schema) : List (String × String × Bool) := s.map fun f => (f.name, arrowTypeOf f.ty, !f.required)
+
+/-- a parquet footer: (column name, Arrow type, nullable) in order -/
+abbrev Footer := List (String × String × Bool)
+
+/-- `_validate_file_schema`: `actual.equals(expected)` -/
+def fileAccepts (table : Schema) (ft : Footer) : Bool := ft == arrowSchema table
+/-- a relaxed check (names and types only) — what the property excludes -/
+def fileAcceptsNoNull (table : Schema) (ft : Footer) : Bool := ft.map (fun c => (c.1, c.2.1)) == (arrowSchema table).map (fun c => (c.1, c.2.1))
+
+structure PTable where
+  schema : Schema
+  footers : List Footer      -- Arrow schema of every data file of the table
+deriving Repr
+
+def appendFileWith (acc : Schema → Footer → Bool) (t : PTable) (ft : Footer) : Option PTable :=
+  if acc t.schema ft then some { t with footers := t.footers ++ [ft] } else none
+
+/-- a full scan concatenates the files' tables: all must have the table's Arrow schema -/
+def concatWorks (t : PTable) : Bool := t.footers.all (· == arrowSchema t.schema)
 
 /-- operations of a history: append with / without schema argument -/
 structure Op where
